@@ -49,6 +49,7 @@ class Contract:
         self.provider_hints = dict(kw.pop("provider_hints", {}))        # provider name -> [ghost statements]
         self.pure_calls = list(kw.pop("pure_calls", []))   # method names assumed pure & provider-free (lenient only)
         self.call_models = dict(kw.pop("call_models", {}))  # "self.f" -> spec expression for the value of self.f(...)
+        self.yield_seq = kw.pop("yield_seq", False)       # generator whose contract speaks about the whole yield sequence
         self.variants = list(kw.pop("variants", []))      # [{name, params, requires, ensures, raises, ...}] type cases
         self.source = kw.pop("source", qual)              # qualified name of the def in `file` (inherited methods)
         self.lenient = kw.pop("lenient", False)           # untracked values become havocs (Unknown) instead of errors
